@@ -101,7 +101,7 @@ Section WithCtx.
     destruct (encode_dir_plain es) as [plain| |]; cbn [bind]; try discriminate.
     destruct (compress cx asy c plain) as [z| |]; cbn [bind]; try discriminate.
     intros H. injection H as <- <-. exists z. repeat split.
-    - apply ws_write_codec_img. - apply ws_write_codec_pos.
+    all: try apply ws_write_dir_img; try apply ws_write_dir_pos.
   Qed.
   Lemma write_dir_ok asy c es st z : encode_dir cx asy c es = Ok z ->
     exists st', write_dir cx asy c es st = Ok (st', nlen z) /\ ws_img st' = ws_img (ws_write st z) /\ ws_pos st' = ws_pos st + nlen z.
@@ -109,7 +109,7 @@ Section WithCtx.
     unfold write_dir, encode_dir.
     destruct (compress cx asy c []) as [x| |]; cbn [bind]; try discriminate.
     destruct (encode_dir_plain es) as [plain| |]; cbn [bind]; try discriminate.
-    intros Hz. rewrite Hz. cbn [bind]. eexists. split; [reflexivity|]. split; [apply ws_write_codec_img|apply ws_write_codec_pos].
+    intros Hz. rewrite Hz. cbn [bind]. eexists. split; [reflexivity|]. split; [apply ws_write_dir_img|apply ws_write_dir_pos].
   Qed.
 
   (** * the leaves *)
